@@ -3277,6 +3277,16 @@ class QuicConnection:
             reason_phrase = ""
 
         reason_bytes = reason_phrase.encode("utf8")
+        max_reason_length = (
+            builder.remaining_buffer_space - TRANSPORT_CLOSE_FRAME_CAPACITY
+        )
+        if len(reason_bytes) > max_reason_length:
+            # The reason phrase is only informative: shorten it rather than
+            # fail to send the close frame.
+            reason_phrase = reason_bytes[: max(0, max_reason_length)].decode(
+                "utf8", "ignore"
+            )
+            reason_bytes = reason_phrase.encode("utf8")
         reason_length = len(reason_bytes)
 
         if frame_type is None:
